@@ -115,6 +115,10 @@ func (rs *runState) writeEvidence(exit int) {
 		"violations":  len(rs.viols),
 	}
 	dir := filepath.Join(VerifRoot(), "evidence")
+	if len(p.ID) > 0 && p.ID[0] == 'X' {
+		// extension specs (behaviour beyond the listed properties) keep their evidence apart
+		dir = filepath.Join(dir, "extras")
+	}
 	os.MkdirAll(dir, 0o755)
 	if err := os.WriteFile(filepath.Join(dir, p.ID+".json"), append(MustJSON(ev), '\n'), 0o644); err != nil {
 		fmt.Fprintf(os.Stderr, "evidence: %v\n", err)
